@@ -57,6 +57,7 @@ def cases(draw):
         # aim at the 23/25-hour day: present readings just below / at / above half of that day and of an ordinary day
         c["blocks"].append((dst_day, draw(st.integers(0, per_day // 2 - 3)), draw(st.sampled_from([per_day // 2 - 2, per_day // 2 - 1, per_day // 2, per_day // 2 + 1]))))
     c["cells"] = draw(st.lists(st.integers(0, c["nd"] * per_day - 1), max_size=10))
+    c["zero_days"] = draw(st.lists(st.integers(0, c["nd"] - 1), max_size=3))  # electric meter days reading exactly 0 (usage missing, temperature not)
     if c["family"] == "billing":
         c["read_hour"] = 0
         c["nd"] = 30 * draw(st.integers(2, 3))  # whole 30-day periods
@@ -102,6 +103,9 @@ def judge(c, rec):
     cls = ["family=" + c["family"], "step=%d" % c["step"], "feed=" + c["feed_tz"], "entry=" + c["entry"], "read_hour=%d" % c["read_hour"]]
     if c["family"] == "daily":
         meter = pd.Series(rng.integers(1, 100, len(mdays)).astype(float), index=mdays, name="observed")
+        for k in c.get("zero_days", ()):
+            if 0 < k < len(meter) - 1:
+                meter.iloc[k] = 0.0
         Cls = em.DailyBaselineData
     else:
         obs = pd.Series(np.nan, index=days)
@@ -111,23 +115,31 @@ def judge(c, rec):
             obs.iloc[r] = 900.0
         meter = obs.rename("observed")
         Cls = em.BillingBaselineData
-    with contextlib.redirect_stdout(io.StringIO()):
-        if c["entry"] == "reporting_T_only":
-            import pytz
+    try:
+      with contextlib.redirect_stdout(io.StringIO()):
+          if c["entry"] == "reporting_T_only":
+              import pytz
 
-            data = em.DailyReportingData.from_series(None, feed.rename("temperature"), is_electricity_data=c.get("elec_flag"), tzinfo=pytz.timezone(tz))
-        elif c["entry"] == "from_series":
-            if c["family"] == "billing":
-                meter_in = meter.dropna()
-                meter_in[days[-1]] = np.nan
-            else:
-                meter_in = meter
-            data = Cls.from_series(meter_in, feed.rename("temperature"), is_electricity_data=True)
-        else:
-            # merged frame: meter values on their own stamps, temperature on the feed's stamps
-            m = meter if c["family"] == "daily" else meter.iloc[:-1]
-            df = pd.concat([m, feed.tz_convert(tz).rename("temperature")], axis=1)
-            data = Cls(df, is_electricity_data=True)
+              data = em.DailyReportingData.from_series(None, feed.rename("temperature"), is_electricity_data=c.get("elec_flag"), tzinfo=pytz.timezone(tz))
+          elif c["entry"] == "from_series":
+              if c["family"] == "billing":
+                  meter_in = meter.dropna()
+                  meter_in[days[-1]] = np.nan
+              else:
+                  meter_in = meter
+              data = Cls.from_series(meter_in, feed.rename("temperature"), is_electricity_data=True)
+          else:
+              # merged frame: meter values on their own stamps, temperature on the feed's stamps
+              m = meter if c["family"] == "daily" else meter.iloc[:-1]
+              df = pd.concat([m, feed.tz_convert(tz).rename("temperature")], axis=1)
+              data = Cls(df, is_electricity_data=True)
+    except ValueError as e:
+        if "Billing data is not allowed" not in str(e):
+            raise
+        # a short span whose zero-usage (missing) days make the spacing look like bills: acceptance is C10's subject
+        rec.note("data-class-rejects-short-span-with-holes")
+        rec.case(c, False, cls + ["input-rejected"])
+        return
     out = data.df
     hook = getattr(data, "_verif_sufficiency_df", None)
     key = "%s/feed=%dmin/read_hour=%d" % (c["family"], c["step"], c["read_hour"])
